@@ -14,13 +14,14 @@ func init() {
 		Explanation: "Decides on queueing/pipeline.go and its client sites: (1) every item state region {Stage < last, Stage = last} x {CycleLeft = 0, CycleLeft > 0} is touched by some transition of Tick or advanceItems (decrement, advance, emit), so no accepted item can be stranded; " +
 			"(2) transitions are safe: an item is emitted only at the last stage with no dwell left and only where the sink's CanPush holds, and is removed on the same path; an item advances by exactly one stage only with no dwell left and a free next slot; dwell is decremented only while positive; " +
 			"(3) the lane given to a new item depends on the lanes of the items already at stage 0, it enters at stage 0 carrying the accepted value, and AcceptWithDelay stamps the delay on the item just appended; CanAccept compares the stage-0 occupancy with the width; " +
-			"(4) every Accept/AcceptWithDelay in library code is dominated by CanAccept on the same pipeline (directly, through the caller, or through a paired guard wrapper branching on the same Spec condition).",
+			"(4) every Accept/AcceptWithDelay in library code is dominated by CanAccept on the same pipeline (directly, through the caller, or through a paired guard wrapper branching on the same Spec condition). (unmarshal-geometry) Pipeline.UnmarshalJSON compares every decoded item's lane and stage with the decoded geometry.",
 		NotDecided:  "the exact latency figure (stages + delay) and lane fairness: numeric; FIFO order of a one-lane pipeline follows from (2) but is not derived.",
 		Assumptions: []string{"items only receive a dwell through AcceptWithDelay at stage 0"},
 	}, runC15)
 }
 
 func runC15(c *Ctx) {
+	pipelineUnmarshalRule(c, "unmarshal-geometry")
 	p := c.P
 	// every stage slot is visited exactly once per sweep
 	{
